@@ -1787,12 +1787,37 @@ macro_rules! vec_impl_vec {
         /// Consuming iterator over this module's vector type.
         // Can't (De)Serialize a ManuallyDrop<T>
         //#[cfg_attr(feature="serde", derive(Serialize, Deserialize))]
-        #[derive(Debug, Hash, PartialEq, Eq)]
         pub struct IntoIter<T> {
             // NOTE: Use a CVec and not $Vec; repr_simd vectors can't monomorphize ManuallyDrop<T>.
             vector: CVec<ManuallyDrop<T>>,
             start: usize,
             end: usize,
+        }
+
+        impl<T> IntoIter<T> {
+            // The elements that were not yielded yet. Yielded slots have been moved out of
+            // and must never be looked at again.
+            fn remaining(&self) -> &[ManuallyDrop<T>] {
+                &self.vector[self.start .. self.end]
+            }
+        }
+
+        // NOTE: Debug, PartialEq and Hash only consider the elements that weren't yielded.
+        impl<T: fmt::Debug> fmt::Debug for IntoIter<T> {
+            fn fmt(&self, f: &mut Formatter) -> fmt::Result {
+                f.debug_tuple("IntoIter").field(&self.remaining()).finish()
+            }
+        }
+        impl<T: PartialEq> PartialEq for IntoIter<T> {
+            fn eq(&self, other: &Self) -> bool {
+                self.remaining() == other.remaining()
+            }
+        }
+        impl<T: Eq> Eq for IntoIter<T> {}
+        impl<T: std::hash::Hash> std::hash::Hash for IntoIter<T> {
+            fn hash<H: std::hash::Hasher>(&self, state: &mut H) {
+                self.remaining().hash(state)
+            }
         }
 
         // NOTE: Be careful to only drop elements that weren't yielded.
